@@ -143,8 +143,10 @@ def quadruplets_from(rng, X, y, n_q):
   return np.array(out)
 
 
-def chunks_from(rng, y, with_unknown=True):
-  """chunk labels: split each class into chunks of >= 2 members; some points get -1"""
+def chunks_from(rng, y, with_unknown=None):
+  """chunk labels: split each class into chunks of >= 2 members; some points get -1 (or, four times in ten, none does)"""
+  if with_unknown is None:
+    with_unknown = bool(rng.random() < 0.6)
   ch = -np.ones(len(y), dtype=int)
   nxt = 0
   for c in np.unique(y):
